@@ -91,6 +91,9 @@ mod x86_avx2;
 mod x86_sse2;
 mod x86_ssse3;
 
+#[cfg(fast_tlsh_verif)]
+pub mod verif;
+
 #[cfg(all(test, feature = "tests-slow"))]
 mod fuzzer;
 
